@@ -1079,7 +1079,9 @@ def _add_contains_views(run, world, mod, c):
     run.rule("R-FRAME-VIEW", "views read only _data/_bits and are the "
              "big-endian encodings of the same number; equality = same "
              "width and bits")
-    fn = normalise(c.methods["__add__"][1], world, FR, c, aliases=True)
+    from ..normal import desugar_translating_with
+    fn = normalise(desugar_translating_with(
+        c.methods["__add__"][1], world, FR), world, FR, c, aliases=True)
     Q = FR + ".Frame.__add__"
     call = None
     for n in ast.walk(fn):
